@@ -15,6 +15,7 @@ REPLAYS = os.path.join(VERIF, "replays")
 EVIDENCE = os.path.join(VERIF, "evidence")
 KNOWN = os.path.join(VERIF, "known_findings.json")
 MAX_REPORTED_SITES = 12
+NO_ANSWER_SITE = "no answer: child killed at the wall limit (twice in the bulk run), the in-process backstop never fired"
 
 
 # ---------------------------------------------------------------------------------------
@@ -172,7 +173,7 @@ class Engine:
         out = []
         for sc, r in zip(scs, rs):
             if r.get("killed"):
-                out.append([Violation(self.prop, "harness.killed", "wall-backstop")])
+                out.append([Violation(self.prop, "liveness.no-answer", NO_ANSWER_SITE)])
             else:
                 try:
                     out.append(self.judge(sc, r, self.refcache))
@@ -248,14 +249,20 @@ class Engine:
         return len(items), 0
 
     def recheck_killed(self):
-        """A wall-backstop kill only counts if it happens again alone on an idle pool."""
+        """A child that had to be killed (no answer, not even from the in-child backstop: a loop inside C code or a
+        blocked call) only counts if it happens again when re-run with few competitors."""
         out = []
-        for idx, sc in sorted(self.killed, key=lambda x: x[0])[:5]:
-            r = poolmod.run_in_child(sc)
+        todo = sorted(self.killed, key=lambda x: x[0])[:4]
+        if not todo:
+            return out
+        rs = self.pool.map([sc for _, sc in todo], chunk=1)
+        for (idx, sc), r in zip(todo, rs):
             if r.get("killed"):
-                v = Violation(self.prop, "liveness.wall-backstop", "killed-twice", {"note": "child exceeded the wall backstop twice"})
+                v = Violation(self.prop, "liveness.no-answer", NO_ANSWER_SITE,
+                              {"note": "the run neither finished nor reached the in-process backstop (loop inside C code, e.g. regex backtracking)"})
                 self.record(idx, sc, [v])
                 out.append(idx)
+        self.stats["killed_runs"] = len(self.killed)
         return out
 
 
